@@ -391,3 +391,60 @@ def _real_groups(rng, n):
 
 Unit("C09", "crystallographic point groups [real objects]", concrete=_real_groups,
      bounded_desc="point groups from standard generators (10 groups quick / 29 thorough, each with and without time reversal) on cubic/tetragonal/hexagonal lattices: closure, identity, inverses, lattice invariance, symmetrize idempotent+invariant for ranks 1-3, star on generic and high-symmetry k")
+
+
+@unit("C09", "PointGroup.symmetric_grid / check_basis_symmetry", scope="shape:5 groups on cubic/tetragonal/hexagonal/fcc/monoclinic lattices, every grid with 1..4 points per direction", expect_min=1)
+def _symgrid(U):
+    import math
+    cbs = U.fn(F, "PointGroup.check_basis_symmetry", globs=dict(np=rnp), model=False)
+    sg = U.fn(F, "PointGroup.symmetric_grid", globs=dict(np=rnp), model=False)
+
+    def rot(n, axis):
+        axis = rnp.array(axis, dtype=float) / rnp.linalg.norm(axis)
+        a = 2 * math.pi / n
+        K = rnp.array([[0, -axis[2], axis[1]], [axis[2], 0, -axis[0]], [-axis[1], axis[0], 0]])
+        return rnp.eye(3) + math.sin(a) * K + (1 - math.cos(a)) * K @ K
+
+    class S:
+        def __init__(self, R, sign=1):
+            self.R, self.sign = R, sign
+
+        def transform_reduced_vector(self, vec, basis):
+            return vec @ (basis @ self.R.T @ rnp.linalg.inv(basis)) * self.sign
+    cases = [("cubic C4z,C4x", rnp.eye(3), [rot(4, [0, 0, 1]), rot(4, [1, 0, 0])]),
+             ("tetragonal C4z", rnp.diag([1, 1, 1.4]), [rot(4, [0, 0, 1])]),
+             ("hexagonal C2x", rnp.array([[1, 0, 0], [-0.5, 0.75 ** 0.5, 0], [0, 0, 1.3]]), [rot(2, [1, 0, 0])]),
+             ("hexagonal C6z", rnp.array([[1, 0, 0], [-0.5, 0.75 ** 0.5, 0], [0, 0, 1.3]]), [rot(6, [0, 0, 1])]),
+             ("fcc C3(111)", rnp.array([[0, 1, 1], [1, 0, 1], [1, 1, 0]]) * 0.5, [rot(3, [1, 1, 1])]),
+             ("monoclinic C2y", rnp.array([[1, 0, 0], [0, 1.2, 0], [0.3, 0, 1.4]]), [rot(2, [0, 1, 0])])]
+
+    def body():
+        bad = []
+        for name, real, gens in cases:
+            recip = 2 * math.pi * rnp.linalg.inv(real).T
+            ops = [rnp.eye(3)]
+            ch = True
+            while ch:
+                ch = False
+                for a in list(ops):
+                    for g in gens:
+                        c_ = a @ g
+                        if not any(rnp.allclose(c_, o) for o in ops):
+                            ops.append(c_)
+                            ch = True
+            me = type("PG", (), {})()
+            me.symmetries = [S(o) for o in ops] + [S(o, -1) for o in ops]
+            me.recip_lattice = recip
+            me.check_basis_symmetry = lambda basis, tol=1e-6, rel_tol=None: cbs(me, basis, tol=tol, rel_tol=rel_tol)
+            for nk in itertools.product(range(1, 5), repeat=3):
+                got = bool(sg(me, nk))
+                # definition: the mesh generated by b_i / nk_i is mapped onto itself by every operation, i.e. each operation written in the
+                # basis b_i/nk_i is an integer matrix
+                B = recip / rnp.array(nk, dtype=float)[:, None]
+                want = all(abs(rnp.round(B @ o.T @ rnp.linalg.inv(B)) - B @ o.T @ rnp.linalg.inv(B)).max() < 1e-5 for o in ops)
+                if got != want:
+                    bad.append((name, nk, got, want))
+        U.ensure("symmetric_grid(nk) is true exactly when every operation maps the mesh spanned by b_i/nk_i onto itself (incl. non-uniform grids on non-orthogonal lattices)", not bad)
+        if bad:
+            ctx().ghost["bad"] = bad[:3]
+    U.run(body, check_feasible=False)
